@@ -76,7 +76,7 @@ pub fn matches(obs: &Value, pats: &Value) -> bool {
         return o.iter().all(|(k, v)| &obs[k] == v)
     }
     let pats = match pats.as_array() { Some(a) => a, None => return false };
-    pats.iter().any(|p| match p["p"].as_str() {
+    pats.iter().any(|p| (p.get("opos").is_none() || p["opos"] == obs["opos"]) && match p["p"].as_str() {
         Some("any") => obs["p"] != "panic",
         Some("err") => obs["p"] == "err" && (p["cls"] == "*" || p["cls"] == obs["cls"]),
         Some("ok")  => obs["p"] == "ok" && obs["pos"] == p["pos"] && value_matches(&obs["v"], &p["v"]),
